@@ -124,7 +124,7 @@ def build(rnd, tier, flags):
     case = {"full": "\n".join(full) + "\n", "sent": "\n".join(sent) + "\n", "minus": "\n".join(minus) + "\n",
             "hidden": hidden, "plain_comments": plain, "std": std, "fixed": fixed, "meta": meta,
             # fixed-form sources are also read with the form set explicitly: non-strict ('fix') and strict ('f77')
-            "source_form": (r.pick([None, None, "fix", "f77"]) if fixed else None)}
+            "source_form": (r.pick([None, None, "fix", "f77"]) if fixed else None), "via_file": r.chance(30)}
     if case["source_form"] == "f77" and any(len(ln) > 72 for ln in full + sent + minus):
         case["source_form"] = "fix"       # strict mode cuts every line at column 72; these texts are not wrapped
     return case, progs.excluded_counts(g)
@@ -143,6 +143,9 @@ def evaluate(case):
         labels.append("explicit-" + sf)
     import functools
     gp = functools.partial(guarded_parse, source_form=sf) if sf else guarded_parse
+    if case.get("via_file"):
+        labels.append("file-reader")
+        gp = functools.partial(gp, via_file=True)      # the same options through FortranFileReader
     o_full = gp(case["full"], std=std)
     o_minus = gp(case["minus"], std=std)
     if o_full.kind != "tree" or o_minus.kind != "tree":
